@@ -135,7 +135,9 @@ def make(prog, presence, include_unchanged):
                                    'include_unchanged': include_unchanged, 'model': B.model_values(m),
                                    'kinds': {p: (stored[p].kind if p in stored else None, live[p].kind if p in live else None) for p in PATHS}})
             elif not res['samples'] and len(got) >= 2:
-                res['samples'].append({'presence': presence, 'diff': got})
+                r0, m = ex.E.check()
+                res['samples'].append({'presence': presence, 'diff': got, 'include_unchanged': include_unchanged, 'model': B.model_values(m),
+                                       'kinds': {p: (stored[p].kind if p in stored else None, live[p].kind if p in live else None) for p in PATHS}})
         return h, on_path, res
     return mk_
 
@@ -218,7 +220,9 @@ def make_cb(prog, presence):
                 res['bad'].append({'kind': 'wrong-backup-changes', 'got': got, 'want': want, 'presence': presence, 'model': B.model_values(m),
                                    'kinds': {p: (stored[p].kind if p in stored else None, live[p].kind if p in live else None) for p in PATHS}})
             elif not res['samples'] and len(got) >= 2:
-                res['samples'].append({'presence': presence, 'backup_changes': got})
+                r0, m = ex.E.check()
+                res['samples'].append({'presence': presence, 'backup_changes': got, 'which': 'backup-callback', 'model': B.model_values(m),
+                                       'kinds': {p: (stored[p].kind if p in stored else None, live[p].kind if p in live else None) for p in PATHS}})
         return h, on_path, res
     return mk_
 
